@@ -431,17 +431,44 @@ var n3Modes = []string{"prevote", "precommit", "newheight", "propose", "mixed"}
 // actually reached is recorded with every input.
 func (ch *n3Child) driveTo(mode string) {
 	n := ch.n
+	inPrevote := func() bool {
+		rs := n.conS.GetRoundState()
+		if rs.Step == cstypes.RoundStepPrevote && rs.Votes != nil {
+			if vs := rs.Votes.Prevotes(rs.Round); vs != nil && vs.GetByAddress(n.nodeAddr) != nil {
+				return true
+			}
+		}
+		return false
+	}
+	inPrecommit := func() bool {
+		rs := n.conS.GetRoundState()
+		if rs.Step == cstypes.RoundStepPrecommit && rs.Votes != nil {
+			if vs := rs.Votes.Precommits(rs.Round); vs != nil && vs.GetByAddress(n.nodeAddr) != nil {
+				return true
+			}
+		}
+		return false
+	}
 	switch mode {
 	case "prevote":
-		n.settle(time.Second)
+		if inPrevote() {
+			return
+		}
+		if !waitUntil(150*time.Millisecond, inPrevote) {
+			_, _ = n.advance(1, 20*time.Second)
+			waitUntil(400*time.Millisecond, inPrevote)
+		}
 	case "precommit":
-		n.settle(time.Second)
-		waitUntil(time.Second, func() bool {
-			rs := n.conS.GetRoundState()
-			if rs.Step == cstypes.RoundStepPrecommit && rs.Votes != nil {
-				if vs := rs.Votes.Precommits(rs.Round); vs != nil && vs.GetByAddress(n.nodeAddr) != nil {
-					return true
-				}
+		if inPrecommit() {
+			return
+		}
+		if !inPrevote() && !waitUntil(150*time.Millisecond, inPrevote) {
+			_, _ = n.advance(1, 20*time.Second)
+			waitUntil(400*time.Millisecond, inPrevote)
+		}
+		waitUntil(300*time.Millisecond, func() bool {
+			if inPrecommit() {
+				return true
 			}
 			_, _ = n.mirrorTypes(tmproto.PrevoteType)
 			return false
